@@ -120,10 +120,11 @@ inductive AttrOp
   | remove (name : Bytes)
 deriving DecidableEq, Repr
 
-/-- The (lower-case) name an operation is about, if the name is acceptable. -/
+/-- The (lower-case) name an operation is about: `set_attribute` only accepts names that can be serialised
+(`name_from_string`); `remove_attribute` is a lookup and accepts every name (`lookup_name`). -/
 def AttrOp.key : AttrOp → Option Bytes
   | .set n _ => attrNameFromString (asciiLowerBytes n)
-  | .remove n => attrNameFromString (asciiLowerBytes n)
+  | .remove n => some (asciiLowerBytes n)
 
 /-- An attribute is *touched* by a script if some operation with an acceptable name names it
 (ASCII case-insensitively). -/
